@@ -15,7 +15,7 @@ paths along a random master forest with trailing / intermediate / stand-alone pl
 (enum variants and field types, id→type, id→path, id→constructor per type, variant→id, variant→accessor, raw-tag arms) and compared with the declaration ∪ {Crc32 0xBF Binary (1-), Void 0xEC Binary (-), RawTag}. \
 Broken declarations are derived from a valid one by one systematic edit (duplicate id incl. the built-ins, unknown variant in a path, non-master parent of a leaf or of a master, path that does not extend the parent's path in three ways, (x-0) placeholder, adjacent placeholders, \
 missing #[id] / #[data_type], unknown data type, an element naming itself as its parent) and must be rejected (Err or panic of the macro body). Compiled engine: a batch of declarations goes through the real proc-macros with rustc; a generic driver checks every trait function for declared and probe ids and a write→read round trip. \
-One valid declaration in six names the direct parent twice in a path (A/(-)/B/(-)/B). Non-trivial: >= 4 distinct types, depth >= 3 and >= 1 placeholder (valid), any broken declaration; distinct by declaration text.";
+One valid declaration in eight carries the ids 1..n plus a leaf whose path replaces the last two parents A/B of an existing grandchild by the placeholder (id(A)-id(B)). One valid declaration in six names the direct parent twice in a path (A/(-)/B/(-)/B). Non-trivial: >= 4 distinct types, depth >= 3 and >= 1 placeholder (valid), any broken declaration; distinct by declaration text.";
 
 pub const ASSUMPTIONS: &[&str] = &[
     "spans, generics and visibility variants are not checked",
@@ -436,11 +436,56 @@ fn name_parent_twice(t: &mut Tape, d: &mut Decl) -> bool {
     true
 }
 
+/// Ids are numbers, and so are placeholder bounds: give the variants the ids 1..n and add a leaf whose path is that of an existing
+/// grandchild with the last two parents `A/B` replaced by the placeholder `(id(A)-id(B))`.  Whatever the macro keys by "the numbers in a
+/// path" must still tell `X/A/B` and `X/(a-b)` apart.
+fn ids_that_coincide_with_bounds(t: &mut Tape, d: &mut Decl) -> bool {
+    let n = d.vars.len();
+    let mut perm: Vec<u64> = (1..=n as u64).collect();
+    for k in (1..n).rev() {
+        let j = t.below(k + 1);
+        perm.swap(k, j);
+    }
+    for (k, v) in d.vars.iter_mut().enumerate() {
+        v.id = perm[k];
+    }
+    let cands: Vec<usize> = (0..n).filter(|&i| { let p = &d.vars[i].path; p.len() >= 2 && matches!(p[p.len() - 1], PP::Name(_)) && matches!(p[p.len() - 2], PP::Name(_)) }).collect();
+    if cands.is_empty() {
+        return false;
+    }
+    let q = cands[t.below(cands.len())];
+    let path = d.vars[q].path.clone();
+    let (PP::Name(n1), PP::Name(n2)) = (&path[path.len() - 2], &path[path.len() - 1]) else { return false };
+    let i1 = d.vars.iter().position(|v| &v.name == n1).unwrap();
+    let i2 = d.vars.iter().position(|v| &v.name == n2).unwrap();
+    if d.vars[i1].id > d.vars[i2].id {
+        let x = d.vars[i1].id;
+        d.vars[i1].id = d.vars[i2].id;
+        d.vars[i2].id = x;
+    }
+    let mut np: Vec<PP> = path[..path.len() - 2].to_vec();
+    if matches!(np.last(), Some(PP::Global(..))) {
+        return false;
+    }
+    np.push(PP::Global(Some(d.vars[i1].id), Some(d.vars[i2].id)));
+    let mut nv = d.vars[q].clone();
+    nv.name = format!("Zz{}", n);
+    nv.id = n as u64 + 1;
+    nv.ty = Ty::U;
+    nv.path = np;
+    let at = t.below(n + 1);
+    d.vars.insert(at, nv);
+    true
+}
+
 fn stage_valid(i: &Input, c: &mut Case) -> Result<(), String> {
     let mut t = Tape::new(i.tape());
     let (mut d, spec) = gen_decl(&mut t);
     if t.chance(1, 6) && name_parent_twice(&mut t, &mut d) {
         c.label("path_names_its_parent_twice");
+    }
+    if t.chance(1, 8) && ids_that_coincide_with_bounds(&mut t, &mut d) {
+        c.label("ids_coincide_with_placeholder_bounds");
     }
     let a_src = render_attr(&d);
     let e_src = render_easy(&d);
